@@ -35,7 +35,8 @@ package executor
 // and the running coin untouched.
 //@ func (e *Executor) HandlePacket(ctx, packet) (err)
 //@   requires[inv]  e != nil && e.router != nil
-//@   modifies bank, events, actcalls, act_ctrl, packet.TransferAttributes.destinationCoin
+//@   modifies bank, events, actcalls, act_ctrl, act_pkt, packet.TransferAttributes.destinationCoin
+//@   ensures[C06] actcalls > old(actcalls) ==> act_pkt == packet
 //@   ensures[C05] actcalls <= old(actcalls) + 1
 //@   ensures[C05] actcalls > old(actcalls) ==> packet != nil && packet.Action != nil && mapHas(e.router.routes, packet.Action.Id) && act_ctrl == mapGet(e.router.routes, packet.Action.Id)
 //@   ensures[C05] packet != nil && packet.Action != nil && !mapHas(e.router.routes, packet.Action.Id) ==> err != nil && actcalls == old(actcalls)
